@@ -14,4 +14,6 @@ MUTANTS = [
     M('C04', 'global label never exported', H + 'math.fj', "        def not_carry < .dst {\n            .dst+dbit+8;\n        }\n\n        //  Time Complexity: 2@+1\n        // Space Complexity: 2@+13",
       "        def not_carry < .dsst {\n            .dsst+dbit+8;\n        }\n\n        //  Time Complexity: 2@+1\n        // Space Complexity: 2@+13", 'C04.CLOSURE'),
     M('C04', 'EQ stride spelled 2*w*i', H + 'math.fj', "        rep(n, i) .add dst+i*dw, src+i*dw\n", "        rep(n, i) .add dst+2*w*i, src+i*dw\n", None),
+    M('C04', 'hex.div clears one hex less of the remainder register', 'flipjump/stl/hex/div.fj', "        .zero nb+1, _r", "        .zero nb, _r", 'C04.SCRATCH'),
+    M('C04', 'hex.mul keeps its accumulator between executions', 'flipjump/stl/hex/mul.fj', "        .zero n, dst\n        .zero n, src\n", "        .zero n, src\n", 'C04.SCRATCH'),
 ]
